@@ -297,24 +297,56 @@ Definition head_newest_b (fs : list fact) : bool :=
     else true) ns.
 
 (* class codes: 0 holds; 1..6 the clauses above; 7 an error answer changed the observable state *)
+(* 6 (continued): the default branch is named only by "" (and addressed as "master"): no node carries
+   the literal branch name "master", whatever the client sent *)
+Definition no_master_branch_b (fs : list fact) : bool :=
+  forallb (fun n => negb (String.eqb (on_br n) "master")) (onodes fs).
+
 Definition inv_class (fs : list fact) : nat :=
   if negb (single_root_b fs) then 1
   else if negb (mirror_b fs) then 2
   else if negb (acyclic_b fs) then 3
   else if negb (ids_unique_b fs) then 4
   else if negb (locked_parents_b fs) then 5
-  else if negb (branch_chain_b fs) || negb (head_newest_b fs) then 6
+  else if negb (branch_chain_b fs) || negb (head_newest_b fs) || negb (no_master_branch_b fs) then 6
   else 0.
 
 Definition state_delta (d : delta) : bool := true.
 
+(* 4 (continued): a UUID the caller assigned (root of a new repo, "uuid" of newversion / branch, the
+   tag of a tag request) is, when the request is answered with success, the UUID of the node that
+   request created -- byte for byte *)
+Definition assigned_of (r : req) : option string :=
+  match r with
+  | RNewRepo (Some a) _ _ => Some a
+  | RNewVersion _ a _ => if String.eqb a "" then None else Some a
+  | RBranch _ _ a _ => if String.eqb a "" then None else Some a
+  | RTag _ t => Some t
+  | _ => None
+  end.
+Definition assigned_honoured_b (fs : list fact) (r : req) (ds : list delta) : bool :=
+  match assigned_of r with
+  | None => true
+  | Some a =>
+    let old_vs := List.map on_v (onodes fs) in
+    existsb (fun d => match d with
+                      | DSet (FNode _ x v _ _ _ _) => String.eqb x a && negb (mem_n v old_vs)
+                      | _ => false end) ds
+  end.
+
 Fixpoint spec_run (fs : list fact) (c : c07case) : nat :=
   match c with
   | [] => 0
-  | (_, o, ds) :: rest =>
+  | (r, o, ds) :: rest =>
     let fs1 := apply_deltas fs ds in
     match o, List.filter state_delta ds with
-    | ODone, _ | _, [] =>
+    | ODone, _ =>
+      if negb (assigned_honoured_b fs r ds) then 4 else
+      match inv_class fs1 with
+      | O => spec_run fs1 rest
+      | k => k
+      end
+    | _, [] =>
       match inv_class fs1 with
       | O => spec_run fs1 rest
       | k => k
